@@ -529,7 +529,59 @@ def gen_tables():
     write_if_changed("GenTables.v", body)
 
 
-GENERATORS = [gen_deblock, gen_yuv, gen_tables]
+# ---------------------------------------------------------------- shared-state inventory (C17)
+def strip_tests(src):
+    """remove `#[cfg(test)] mod NAME { ... }` blocks and `#[test] fn ... { ... }` items"""
+    out = src
+    for pat in (r"#\[cfg\(test\)\]\s*(?:pub\s+)?mod\s+\w+\s*\{", r"#\[test\]\s*(?:#\[[^\]]*\]\s*)*fn\s+\w+\s*\([^)]*\)\s*\{",
+                r"#\[cfg\(test\)\]\s*(?:#\[[^\]]*\]\s*)*fn\s+\w+\s*\([^)]*\)[^{]*\{"):
+        while True:
+            m = re.search(pat, out)
+            if not m:
+                break
+            i = m.end()
+            depth = 1
+            while i < len(out) and depth:
+                if out[i] == "{":
+                    depth += 1
+                elif out[i] == "}":
+                    depth -= 1
+                i += 1
+            out = out[:m.start()] + out[i:]
+    return out
+
+
+def gen_inventory():
+    import glob
+    files = []
+    for crate in ("h263", "yuv", "deblock"):
+        files += sorted(glob.glob(os.path.join(REPO, crate, "src", "**", "*.rs"), recursive=True))
+    lazy = []
+    counts = {"static_mut": 0, "plain_static": 0, "thread_local": 0, "unsafe": 0, "interior_mutability": 0,
+              "clock_env_random": 0, "map_iteration": 0}
+    for f in files:
+        rel = os.path.relpath(f, REPO)
+        src = strip_tests(strip_comments(open(f).read()))
+        for m in re.finditer(r"lazy_static!\s*\{(.*?)\n\}", src, re.S):
+            for n in re.findall(r"static\s+ref\s+(\w+)", m.group(1)):
+                lazy.append("%s:%s" % (rel, n))
+        no_lazy = re.sub(r"lazy_static!\s*\{.*?\n\}", "", src, flags=re.S)
+        counts["static_mut"] += len(re.findall(r"\bstatic\s+mut\b", no_lazy))
+        counts["plain_static"] += len(re.findall(r"(?<![\w'])static\s+(?!mut\b)[A-Z_]\w*\s*:", no_lazy))
+        counts["thread_local"] += len(re.findall(r"\bthread_local!", no_lazy))
+        counts["unsafe"] += len(re.findall(r"\bunsafe\b", no_lazy))
+        counts["interior_mutability"] += len(re.findall(r"\b(?:Cell|RefCell|UnsafeCell|OnceCell|OnceLock|Mutex|RwLock|Atomic\w+)\b", no_lazy))
+        counts["clock_env_random"] += len(re.findall(r"\b(?:SystemTime|Instant|std::env|env::var|rand::|RandomState)\b", no_lazy))
+        counts["map_iteration"] += len(re.findall(r"reference_states\s*\.\s*(?:iter|iter_mut|values|values_mut|keys|drain|into_iter|retain)\b", no_lazy))
+        counts["map_iteration"] += len(re.findall(r"for\s+[^;{]*\bin\s+&?(?:mut\s+)?self\.reference_states\b", no_lazy))
+    body = "(* GENERATED by tools/rs2v.py from every non-test source file of the three crates -- do not edit. *)\nFrom Coq Require Import String List ZArith.\nImport ListNotations.\nOpen Scope string_scope.\n\n"
+    body += "Definition lazy_static_items : list string :=\n  [%s].\n\n" % ";\n   ".join('"%s"' % x for x in sorted(lazy))
+    body += "Definition forbidden_construct_counts : list (string * Z) :=\n  [%s].\n" % ";\n   ".join('("%s", %d%%Z)' % (k, counts[k]) for k in sorted(counts))
+    write_if_changed("GenInventory.v", body)
+    STATUS["inventory"] = "ok"
+
+
+GENERATORS = [gen_deblock, gen_yuv, gen_tables, gen_inventory]
 
 
 def main():
